@@ -256,6 +256,69 @@ example : Eval.jsonDepthExceeds (List.replicate 3 0x5b ++ [0x31] ++ List.replica
     ∧ Eval.jsonDepthExceeds (List.replicate 4 0x5b ++ [0x31] ++ List.replicate 4 0x5d) 3 = true
     ∧ Eval.jsonDepthExceeds ([0x7b, 0x22] ++ List.replicate 9 0x5b ++ [0x22, 0x7d]) 3 = false := by decide
 
+/-- **6a″. what `dataParse` does with the engines' results** (task 3b: only `JSONPath` / `Find` and
+the serialisation of ONE selected value / node remain parameters, `Eval.Engines2`).  JSON: the result is
+`[` + the encodings of the selected values IN THE ORDER OF THE ENGINE'S RESULT separated by `,` + `]`;
+the first value that does not unpack makes the whole evaluation an error; nothing selected gives `[]`
+(not an error, not an empty string).  All theorems of this file hold for `E.toEngines`. -/
+theorem json_assembly (E : Eval.Engines2) (doc rest : Bytes) :
+    Eval.dataParse E.toEngines doc (0x24 :: rest) =
+      (if Eval.jsonDepthExceeds doc Gen.DosnodeFlow.maxDocumentDepth then .err
+       else match E.jsonNodes doc (0x24 :: rest) with
+        | .nodes vs =>
+          (match Eval.unpackAll vs with
+            | some l => .ok ([0x5b] ++ Eval.jsonJoin l ++ [0x5d])
+            | none => .err)
+        | .err => .err
+        | .panic => .panic) := by
+  rw [(parse_dispatch E.toEngines doc rest 0).2.1]
+  by_cases hg : Eval.jsonDepthExceeds doc Gen.DosnodeFlow.maxDocumentDepth = true
+  · simp [hg]
+  · simp only [hg, Eval.Engines2.toEngines]
+    cases E.jsonNodes doc (0x24 :: rest) <;> rfl
+
+example : Eval.dataParse (Eval.Engines2.toEngines ⟨fun _ _ => .nodes [some [0x31], some [0x22, 0x61, 0x22]], fun _ _ => .err⟩) [0x7b] [0x24]
+    = .ok [0x5b, 0x31, 0x2c, 0x22, 0x61, 0x22, 0x5d] := by decide
+
+/-- every selected value unpacks ⇒ the array lists exactly them, in order; an empty selection is `[]` -/
+theorem json_order_and_empty (vs : List Bytes) :
+    Eval.jsonAssemble (.nodes (vs.map some)) = .ok ([0x5b] ++ Eval.jsonJoin vs ++ [0x5d])
+    ∧ Eval.jsonAssemble (.nodes []) = .ok [0x5b, 0x5d] := by
+  have h : ∀ l : List Bytes, Eval.unpackAll (l.map some) = some l := by
+    intro l
+    induction l with
+    | nil => rfl
+    | cons v l ih => simp [Eval.unpackAll, ih]
+  exact ⟨by simp [Eval.jsonAssemble, h], rfl⟩
+
+example : Eval.jsonAssemble (.nodes [some [0x31], none, some [0x32]]) = .err := by decide
+
+/-- the matches are laid out one after the other: joining two non-empty selections is joining each
+and putting one comma between them (JSON), concatenating the two outputs (XPath, each node followed
+by its line feed) -/
+theorem assembly_concatenates (a b : List Bytes) (ha : a ≠ []) (hb : b ≠ []) :
+    Eval.jsonJoin (a ++ b) = Eval.jsonJoin a ++ [0x2c] ++ Eval.jsonJoin b
+    ∧ Eval.xmlJoin (a ++ b) = Eval.xmlJoin a ++ Eval.xmlJoin b := by
+  constructor
+  · induction a with
+    | nil => exact absurd rfl ha
+    | cons v a ih =>
+      cases a with
+      | nil =>
+        cases b with
+        | nil => exact absurd rfl hb
+        | cons w b => simp [Eval.jsonJoin]
+      | cons w a =>
+        have := ih (by simp)
+        simp only [List.cons_append] at this ⊢
+        simp only [Eval.jsonJoin, this, List.append_assoc]
+  · clear ha hb
+    induction a with
+    | nil => simp [Eval.xmlJoin]
+    | cons v a ih => simp [Eval.xmlJoin, ih, List.append_assoc]
+
+example : Eval.jsonJoin ([[1], [2]] ++ [[3]]) = [1, 0x2c, 2, 0x2c, 3] ∧ Eval.xmlJoin ([[1]] ++ [[2]]) = [1, 10, 2, 10] := by decide
+
 /-- **6b. one evaluation, cut at its statements, is the one-shot function**: run for `turns` steps
 or longer, the machine of `genQueryResult` ends with exactly `queryResult` – the parsed result
 followed by the submitter address, or no content when the selector fails. -/
@@ -687,6 +750,98 @@ theorem members_agree_on_submitter (me1 me2 : Bytes) (ops1 ops2 : List Eval.Op) 
 
 example : Eval.Book.submitterOf (Eval.Book.run [7] [.grouping 5 [[9], [7], [8]]]) 5 (2 ^ 64 + 2)
     = some [8] ∧ Eval.Book.submitterOf (Eval.Book.run [8] [.dissolve 5, .grouping 5 [[9], [7], [8]], .grouping 6 [[8]]]) 5 (2 ^ 64 + 2) = some [8] := by decide
+
+/-! ### 8e–8h (round 5, review H #6). the NODE around the table: a dissolve is acted on only with a share
+
+8c / 8d are about `pdkg`'s table (`Book`, where a dissolve always deletes).  The node calls
+`GroupDissolve` only when it holds a share for the group (`NodeSt`), so an entry whose key
+generation never completed SURVIVES a dissolve, and the re-announced id is then refused ("dkg:
+duplicate share public key").  What C07 needs still holds, under the assumption the code really
+needs: every announcement of the group id that reaches the node carries the same list (on chain a
+group id is a fresh hash; "announced once between dissolves" is NOT enough – witness 8g). -/
+
+/-- **8e. the list as announced, at the node**: after ANY sequence of LogGrouping events, key
+generations completing and LogGroupDissolve events (acted on or not), whatever list the node holds
+for `gid` is the `NodeId` list of a LogGrouping event for `gid` naming the node, element for element. -/
+theorem node_member_list_as_announced (me : Bytes) (ops : List Eval.NodeOp) (gid : Nat) (l : List Bytes)
+    (h : Eval.Book.ids (Eval.NodeSt.run me ops).book gid = some l) :
+    Eval.NodeOp.grouping gid l ∈ ops ∧ me ∈ l := by
+  rcases Eval.nodeRun_ids_announced me ops Eval.NodeSt.init gid l h with h0 | h1
+  · simp [Eval.NodeSt.init, Eval.Book.ids] at h0
+  · exact h1
+
+example : Eval.Book.ids (Eval.NodeSt.run [7] [.grouping 1 [[9], [7]], .certified 1, .dissolve 1, .grouping 1 [[7], [9]]]).book 1
+    = some [[7], [9]] := by decide
+
+/-- **8f. every member that handles a request computes the identical submitter.**  A node handles a
+request event of `gid` only when it holds a share (`isMember`); if every announcement of `gid` that
+reached either node carries the list `announced`, then two nodes that both handle the request choose
+the same submitter: entry `(r mod 2^64) mod n` of the announced list – whatever dissolve events were
+or were not acted on in between, in whatever order the nodes saw their events. -/
+theorem node_members_agree_on_submitter (me1 me2 : Bytes) (ops1 ops2 : List Eval.NodeOp) (gid r : Nat)
+    (announced : List Bytes) (s1 s2 : Bytes)
+    (huniq1 : ∀ l, Eval.NodeOp.grouping gid l ∈ ops1 → l = announced)
+    (huniq2 : ∀ l, Eval.NodeOp.grouping gid l ∈ ops2 → l = announced)
+    (h1 : Eval.NodeSt.submitterOf (Eval.NodeSt.run me1 ops1) gid r = some s1)
+    (h2 : Eval.NodeSt.submitterOf (Eval.NodeSt.run me2 ops2) gid r = some s2) :
+    s1 = s2 ∧ submitter announced r = some s1
+    ∧ Eval.NodeOp.certified gid ∈ ops1 ∧ Eval.NodeOp.certified gid ∈ ops2 := by
+  have key : ∀ (me : Bytes) (ops : List Eval.NodeOp) (s : Bytes),
+      (∀ l, Eval.NodeOp.grouping gid l ∈ ops → l = announced) →
+      Eval.NodeSt.submitterOf (Eval.NodeSt.run me ops) gid r = some s →
+      submitter announced r = some s ∧ Eval.NodeOp.certified gid ∈ ops := by
+    intro me ops s hu h
+    unfold Eval.NodeSt.submitterOf at h
+    by_cases hm : gid ∈ (Eval.NodeSt.run me ops).shares
+    · simp only [hm, if_true, Eval.Book.submitterOf] at h
+      cases hb : Eval.Book.ids (Eval.NodeSt.run me ops).book gid with
+      | none => simp [hb] at h
+      | some l =>
+        simp only [hb] at h
+        have := hu l (node_member_list_as_announced me ops gid l hb).1
+        subst this
+        refine ⟨h, ?_⟩
+        rcases Eval.nodeRun_share_certified me ops Eval.NodeSt.init gid hm with h0 | hc
+        · simp [Eval.NodeSt.init] at h0
+        · exact hc
+    · simp [hm] at h
+  obtain ⟨a1, c1⟩ := key me1 ops1 s1 huniq1 h1
+  obtain ⟨a2, c2⟩ := key me2 ops2 s2 huniq2 h2
+  exact ⟨by rw [a1] at a2; exact Option.some.inj a2, a1, c1, c2⟩
+
+example : Eval.NodeSt.submitterOf (Eval.NodeSt.run [7] [.grouping 5 [[9], [7], [8]], .certified 5]) 5 (2 ^ 64 + 2) = some [8]
+    ∧ Eval.NodeSt.submitterOf (Eval.NodeSt.run [8] [.dissolve 5, .grouping 5 [[9], [7], [8]], .grouping 6 [[8]], .certified 5]) 5 (2 ^ 64 + 2) = some [8] := by decide
+
+/-- **8g. the stale entry** (witness; real handleGrouping + pdkg + onchainLoop: `grpd noshare` cases):
+announced, key generation not completed, dissolve, re-announced in another order – the node still
+holds the FIRST list, where `pdkg`'s own table (dissolve always deletes) would hold the second; but
+it holds no share, so it handles no request of the group: nothing is signed with the stale list. -/
+theorem stale_entry_witness :
+    Eval.Book.ids (Eval.NodeSt.run [7] [.grouping 1 [[7], [8]], .dissolve 1, .grouping 1 [[8], [7]]]).book 1 = some [[7], [8]]
+    ∧ Eval.Book.ids (Eval.Book.run [7] [.grouping 1 [[7], [8]], .dissolve 1, .grouping 1 [[8], [7]]]) 1 = some [[8], [7]]
+    ∧ ∀ r, Eval.NodeSt.submitterOf (Eval.NodeSt.run [7] [.grouping 1 [[7], [8]], .dissolve 1, .grouping 1 [[8], [7]]]) 1 r = none := by
+  refine ⟨by decide, by decide, ?_⟩
+  intro r
+  have : (Eval.NodeSt.run [7] [.grouping 1 [[7], [8]], .dissolve 1, .grouping 1 [[8], [7]]]).shares = [] := by decide
+  simp [Eval.NodeSt.submitterOf, this]
+
+example : (Eval.NodeSt.run [7] [.grouping 1 [[7], [8]], .dissolve 1]).book = [(1, [[7], [8]])] := by decide
+
+/-- **8h. an entry without a share is permanent** (the liveness issue behind 8g, for every history):
+while the key generation of `gid` is not certified, no announcement and no dissolve event changes the
+list the node holds for `gid`, and the node never handles a request of `gid`. -/
+theorem entry_without_share_is_permanent (me : Bytes) (before after : List Eval.NodeOp) (gid : Nat) (l0 : List Bytes)
+    (h0 : Eval.Book.ids (Eval.NodeSt.run me before).book gid = some l0)
+    (hs : gid ∉ (Eval.NodeSt.run me before).shares) (hc : Eval.NodeOp.certified gid ∉ after) :
+    Eval.Book.ids (Eval.NodeSt.run me (before ++ after)).book gid = some l0
+    ∧ ∀ r, Eval.NodeSt.submitterOf (Eval.NodeSt.run me (before ++ after)) gid r = none := by
+  have := Eval.entry_without_share_stays me after (Eval.NodeSt.run me before) gid l0 h0 hs hc
+  unfold Eval.NodeSt.run at this ⊢
+  rw [List.foldl_append]
+  exact ⟨this.1, fun r => by simp [Eval.NodeSt.submitterOf, this.2]⟩
+
+example : Eval.Book.ids (Eval.NodeSt.run [7] ([.grouping 1 [[7], [8]]] ++ [.dissolve 1, .grouping 1 [[8], [7]], .certified 2])).book 1
+    = some [[7], [8]] := by decide
 
 /-! ### non-vacuity -/
 example : sysContent 32 0 [0xAA] = List.replicate 32 0 ++ [0xAA] := by decide
